@@ -440,6 +440,9 @@ fn run_plan(out: &mut Out, seed: u64, shard: u64, i: u64, per_lib: u64, cap: usi
                             fail = Some((format!("output unreadable: {}", e), format!("{:?}", plan)));
                         }
                     }
+                    if std::env::var_os("WACV_DEBUG2").is_some() {
+                        eprintln!("PLAN {:?} order {:?} define={}\n{:?}\n{}", plan, order, define, g, wasmprinter::print_bytes(&bytes).unwrap_or_default());
+                    }
                     if let Err(e) = validate_all(&bytes) {
                         if std::env::var_os("WACV_DEBUG").is_some() {
                             eprintln!("PLAN {:?} order {:?} define={}\n{:?}\n{}", plan, order, define, g, wasmprinter::print_bytes(&bytes).unwrap_or_default());
